@@ -270,8 +270,42 @@ def search(res, tier, boost=False):
                 if g1 != g2:
                     fail('C15:duffyid-sym-agree', deg=deg, sym=q2s(g1), nonsym=q2s(g2))
 
-    # float stream: tabulated log rules and Gauss rules through the real constructors
+    # float stream, 1-D: every base rule and its mirror on targets with side in [1e-4, 1e3] at offsets up to 1e3
+    # (shifted monomials ((x-a)/(b-a))^k are well conditioned at any offset; their integral is (b-a)/(k+1))
     from src.quadrature_rules import LOG_QUAD_RULES
+    bases1 = [('gauss%d' % n, Q.gauss_quadrature_scheme(n), n) for n in (1, 3, 7, 13)]
+    bases1 += [('log%d_%d' % k, Q.log_quadrature_scheme(*k), k[0]) for k in rng.sample(LOG_QUAD_RULES, 4) if k[0] >= 1]
+    for name, base, deg in bases1:
+        for s1, sname in ((base, ''), (base.mirror(), 'mirror')):
+            for _ in range(6 if tier == 'quick' else 40):
+                h = 10.0**rng.uniform(-4, 3) * 1.0000001
+                a = rng.choice([0.0, 1.0, 10.0, 100.0, 1000.0, -50.0]) * rng.uniform(0.5, 1.0)
+                b = a + h
+                for k in range(0, min(deg, 8) + 1):
+                    got = s1.integrate(lambda x: ((x - a) / h)**k, a, b)
+                    want = h / (k + 1)
+                    res.count(('f1', name, sname, k, a, h))
+                    if abs(got - want) > 1e-11 * h + 4e-16 * (abs(a) + h):
+                        fail('C15:float-exact1:%s:%s' % (name, sname), degree=k, interval=[a, b], got=float(got), want=want)
+                        break
+    # float stream, 3-D: measure and low-degree exactness of the two 3-D Duffy schemes on boxes at an offset
+    g5 = Q.gauss_quadrature_scheme(5)
+    p3 = Q.ProductScheme3D(g5)
+    for sname, s3, dmax in (('product3', p3, 5), ('duffyid3', Q.DuffySchemeIdentical3D(p3, False), 3), ('touch3', Q.DuffySchemeTouch3D(p3), 3)):
+        for _ in range(3 if tier == 'quick' else 20):
+            hs = [10.0**rng.uniform(-4, 3) for _ in range(3)]
+            os_ = [rng.choice([0.0, 10.0, 1000.0]) for _ in range(3)]
+            box = [os_[0], os_[0] + hs[0], os_[1], os_[1] + hs[1], os_[2], os_[2] + hs[2]]
+            vol = hs[0] * hs[1] * hs[2]
+            for e in ((0, 0, 0), (1, 0, 0), (0, 1, 1), (1, 1, 1), (2, 0, 1)):
+                if sum(e) > dmax:
+                    continue
+                got = s3.integrate(lambda x: ((x[0] - box[0]) / hs[0])**e[0] * ((x[1] - box[2]) / hs[1])**e[1] * ((x[2] - box[4]) / hs[2])**e[2], *box)
+                want = vol / ((e[0] + 1) * (e[1] + 1) * (e[2] + 1))
+                res.count(('f3', sname, e, tuple(box)))
+                if abs(got - want) > 1e-10 * vol:
+                    fail('C15:float-exact3:%s' % sname, e=list(e), box=box, got=float(got), want=want)
+    # float stream: tabulated log rules and Gauss rules through the real constructors
     keys = LOG_QUAD_RULES if (tier == 'thorough' or boost) else rng.sample(LOG_QUAD_RULES, 6)
     bases = [('log%d_%d' % k, Q.log_quadrature_scheme(*k), k[0]) for k in keys if k[0] >= 1]
     bases += [('gauss%d' % n, Q.gauss_quadrature_scheme(n), n) for n in (1, 3, 5, 9, 13, 23)]
